@@ -135,9 +135,7 @@ def create_nxgraph(net, include_pipes=True, respect_status_pipes=True,
         add_branch_component(comp, mg, net, table_name, include_comp, respect_status, weight_getter, valve_et_filter)
 
     # add all junctions that were not added when creating branches
-    if len(mg.nodes()) < len(net.junction.index):
-        for b in set(net.junction.index) - set(mg.nodes()):
-            mg.add_node(b)
+    mg.add_nodes_from(net.junction.index)
 
     # remove nogojunctions
     if nogojunctions is not None:
@@ -163,6 +161,9 @@ def create_nxgraph(net, include_pipes=True, respect_status_pipes=True,
 
 def add_branch_component(comp, mg, net, table_name, include_comp, respect_status, weight_getter, valve_et_filter):
     tab = get_edge_table(net, table_name, include_comp)
+    if tab is not None and table_name == "valve":
+        # a valve attached to a pipe (et == "pi") is no junction-to-junction branch: it only closes its pipe
+        tab = tab[tab["et"].values != "pi"]
 
     if tab is not None:
         in_service_name = comp.active_identifier()
